@@ -111,7 +111,17 @@ def _pdelta(q):
 
 def search(ctx, broken, cases):
     tol = Fraction(1, 10 ** 9)
-    for c in cases[:1500]:
+    # targeted compositions around the regime boundaries (n0 = 17/18/19, one charge type, ties p = n, k = z)
+    extra = []
+    for z in (0, 1, 5, 6, 7, 16, 17, 18, 19, 20, 24, 30):
+        for p, n in ((1, 1), (2, 3), (3, 2), (4, 4), (0, 3), (3, 0), (0, z), (z, 0), (1, 6), (7, 2)):
+            if p + n > 0:
+                sq_ = gen_seq.spell(ctx.rng, gen_seq.arrange(ctx.rng, (p, n, z)))
+                st, v = _dmax(sq_)
+                if st != 'ok':
+                    return {'kind': 'deltaMax-fails', 'sequence': sq_, 'impl': [st, v]}
+                extra.append(Case('', {'sequence': sq_, 'impl': [st, v]}))
+    for c in extra + list(cases[:1500]):
         s = c.descr['sequence']
         val, (v2, t), _ = c.descr['impl'][1]
         q = pat_of(s)
@@ -138,3 +148,21 @@ def replay(ctx, obj):
     c = obj.get('case', obj)
     s = c['sequence']
     return {'sequence': s, 'now': _dmax(s), 'stored': c}
+
+
+def replay_fixed(ctx, fnd):
+    """fixed: entries suppress nothing; their witnesses must pass"""
+    w = fnd.get('witness')
+    if fnd.get('id') == 'D2':
+        def f():
+            o = SP(w)
+            o.get_kappa()
+            return o.get_deltaMax(True)
+        st, v = call(f)
+        if st != 'ok' or v[1] is None or sorted(v[1]) != sorted(w):
+            return {'history': ['get_kappa()', 'get_deltaMax(True)'], 'sequence': w, 'result': [st, repr(v)]}
+    if fnd.get('id') == 'D3':
+        st, v = call(lambda: SP(w).get_deltaMax(True))
+        if st != 'ok' or v[1] is None or sorted(v[1]) != sorted(w):
+            return {'call': 'get_deltaMax(True)', 'sequence': w, 'result': [st, repr(v)]}
+    return None
